@@ -123,6 +123,16 @@ def r2_chunk_independence(ctx):
     chunks = b.calls_to(r"bytes::Buf::chunk$|Bytes as bytes::Buf>::chunk$|Frame::<.*>::into_data$")
     R.floor("C19.R2", len(chunks), 1, "reads of the current frame's bytes in read_body")
     seeds = {c.dest["l"] for c in chunks}
+    # the frame's payload is also at hand before `chunk()` is called on it (`frame.data_ref()`): a test on that is a test
+    # on the current frame's bytes just the same
+    for c in b.calls_to(r"Frame::<.*>::(data_ref|data_mut)$"):
+        holders = follow_value(b, c.dest["l"]) if c.dest else set()
+        for blk in b.blocks:
+            for st in blk["st"]:
+                if st["s"] == "assign" and st["rv"]["k"] == "use" and not st["pl"].get("p"):
+                    q = op_place(st["rv"]["op"])
+                    if q is not None and q["l"] in holders and any(isinstance(e, dict) and e.get("d") == "Some" for e in q.get("p", [])):
+                        seeds.add(st["pl"]["l"])   # the payload, not the Option (whether a frame carries data at all is its kind)
     tainted = forward_taint(b, seeds, sanitizers=(r"Vec::<.*>::extend_from_slice$", r"Vec::<.*>::extend$"))
     sw = tainted_switches(b, tainted)
     R.extra["C19.R2.tainted_locals"] = len(tainted)
